@@ -1,2 +1,6 @@
 def h(a=0):
   return ('h', a)
+
+
+def shared(a=0):
+  return ('shared-alt', a)
